@@ -357,7 +357,9 @@ func (b *Bus) deliver(viewer, announcer *Node, a *announcement, remove bool) {
 	if remove {
 		cb(el, a.name, "", nil, -1, true)
 	} else {
-		cb(el, a.name, "", []net.IP{net.IPv4(127, 0, 0, 1)}, px.Port, false)
+		// IPv6 listed first, as resolvers often report it: the hub prefers IPv4 when it dials (the proxies listen on
+		// 127.0.0.1 only)
+		cb(el, a.name, "", []net.IP{net.ParseIP("::1"), net.IPv4(127, 0, 0, 1)}, px.Port, false)
 	}
 }
 
